@@ -24,6 +24,7 @@
 #include <errno.h>
 #include <fcntl.h>
 #include <signal.h>
+#include <sys/mman.h>
 #include <sys/resource.h>
 #include <sys/stat.h>
 #include <unistd.h>
@@ -36,13 +37,16 @@
 static vbuf g_log;
 static char g_casedesc[256];
 static const char* g_props = "C14";
-static unsigned long g_nviol;
+static unsigned long g_nviol, g_nviol_other;
 static int g_case_violated;
 
 static void violation(const char* props, const char* key, const char* fmt, ...)
 {
     char msg[600]; va_list ap; va_start(ap, fmt); vsnprintf(msg, sizeof msg, fmt, ap); va_end(ap);
-    ++g_nviol; g_case_violated = 1;
+    if (!strstr(props, g_props)) {
+        // an observation that belongs to another property's check: reported (bounded), but the oracle of this mode keeps going
+        if (++g_nviol_other > 40) return;
+    } else { ++g_nviol; g_case_violated = 1; }
     printf("V {\"props\":\"%s\",\"key\":\"%s\",\"case\":\"%s\",\"msg\":", props, key, g_casedesc);
     vjson_str(stdout, msg);
     printf(",\"oplog\":"); vjson_str(stdout, g_log.p ? g_log.p : ""); printf("}\n");
@@ -66,10 +70,11 @@ enum FaultMode { F_NONE, F_EACCES, F_ENOSPC, F_EIO, F_SHORTFAIL, F_ZERO };
 static struct {
     std::set<int>* owned;
     unsigned long n_open, n_pwrite, n_close, n_flock, bytes, faults_fired, shorts;
-    int site_kind; // 0 none 1 open 2 pwrite
+    int site_kind; // 0 none 1 open 2 pwrite 3 flock
     long site; FaultMode mode;
     int short_writes; vrng rng; // random short writes (C14)
     int shortfail_armed;
+    int sparse; // big-file mode: of a write > 1 MiB only the first and last 8 KiB reach the disk (the rest is zeros in the source, a hole in the file)
 } IO;
 
 extern "C" int __wrap_open(const char* path, int flags, ...)
@@ -98,6 +103,12 @@ extern "C" ssize_t __wrap_pwrite(int fd, const void* buf, size_t n, off_t off)
             if ((long)idx == IO.site && n > 1) { IO.shortfail_armed = 1; ++IO.shorts; ssize_t r = __real_pwrite(fd, buf, n / 2, off); if (r > 0) IO.bytes += (unsigned long)r; return r; }
             if (IO.shortfail_armed || ((long)idx == IO.site)) { IO.shortfail_armed = 0; ++IO.faults_fired; errno = EIO; return -1; }
         }
+    }
+    if (IO.sparse && n > (1u << 20)) {
+        const uint8_t* b = (const uint8_t*)buf;
+        if (__real_pwrite(fd, b, 8192, off) != 8192 || __real_pwrite(fd, b + n - 8192, 8192, off + (off_t)(n - 8192)) != 8192) return -1;
+        IO.bytes += n;
+        return (ssize_t)n;
     }
     size_t k = n;
     if (IO.short_writes && n > 1 && vrng_chance(&IO.rng, 1, 2)) { k = (size_t)vrng_range(&IO.rng, 1, n - 1); ++IO.shorts; }
@@ -133,8 +144,9 @@ extern "C" int __wrap_close(int fd)
 }
 extern "C" int __wrap_flock(int fd, int op)
 {
-    ++IO.n_flock;
+    unsigned long idx = IO.n_flock++;
     if (!IO.owned->count(fd)) violation("C16", "flock-on-unowned-descriptor", "flock(fd=%d)", fd);
+    if (IO.site_kind == 3 && (long)idx == IO.site) { ++IO.faults_fired; errno = EWOULDBLOCK; return -1; } // somebody else holds the lock
     return __real_flock(fd, op);
 }
 
@@ -209,7 +221,7 @@ static std::string uri_spelling(vrng* g, const std::string& dir, const std::stri
     }
 }
 
-static struct { unsigned long cases, cycles, appends, frames, bytes, files, empty_cycles, fileuri, restarts_without_set; } C;
+static struct { unsigned long cases, cycles, appends, frames, bytes, files, empty_cycles, fileuri, restarts_without_set, neighbours, big_files; } C;
 static vset g_sigs;
 
 // append frames [0,n) of buf grouped into random packets; returns false if the HAL reported an error
@@ -242,7 +254,31 @@ static void run_raw_case(uint64_t seed, unsigned long icase, const std::string& 
     if (!st) { violation("C14", "open-failed", "storage_open(raw) failed"); return; }
     int ncycles = (int)vrng_range(&g, 1, 4);
     uint64_t sig = vhash_init();
+    // A neighbour: a second raw device whose start fails because its file is locked by somebody else
+    // (the harness plays the other process). Whatever the neighbour does afterwards, the files of the
+    // device under test still consist of exactly the frames appended to them.
+    int nb_cycle = vrng_chance(&g, 1, 3) ? (int)vrng_below(&g, (uint64_t)ncycles) : -1;
+    int nb_when = (int)vrng_below(&g, 3); // closed 0: right after this device started, 1: in the middle of the appends, 2: after the cycle
+    struct Storage* nb = 0;
+    int nb_lock_fd = -1;
+    auto nb_close = [&]() { if (nb) { vbuf_printf(&g_log, "neighbour-close "); storage_close(nb); nb = 0; } };
     for (int cy = 0; cy < ncycles && !g_case_violated; ++cy) {
+        if (cy == nb_cycle) {
+            std::string lp = dir + "/locked_" + std::to_string(icase) + ".raw";
+            int lfd = __real_open(lp.c_str(), O_RDWR | O_CREAT, 0666);
+            if (lfd >= 0 && __real_flock(lfd, LOCK_EX | LOCK_NB) == 0 && (nb = open_device(BasicDevice_Storage_Raw))) {
+                struct StorageProperties props; memset(&props, 0, sizeof props);
+                struct PixelScale ps = { 1, 1 };
+                storage_properties_init(&props, 0, lp.c_str(), lp.size() + 1, 0, 0, ps, 0);
+                storage_set(nb, &props);
+                storage_properties_destroy(&props);
+                enum DeviceStatusCode r = storage_start(nb);
+                vbuf_printf(&g_log, "| neighbour start on a locked file -> %s ", r == Device_Ok ? "ok" : "refused");
+                ++C.neighbours;
+            }
+            nb_lock_fd = lfd; // the other holder keeps its lock until the end of the case
+            unlink(lp.c_str());
+        }
         char name[64]; snprintf(name, sizeof name, "c%lu_%d.raw", icase, cy);
         static std::string real, uri;
         if (cy > 0 && vrng_chance(&g, 1, 4)) {
@@ -265,6 +301,13 @@ static void run_raw_case(uint64_t seed, unsigned long icase, const std::string& 
         build_frames(&g, buf, specs, nframes, vrng_chance(&g, 1, 2), (uint32_t)vrng_range(&g, 1, 64), (uint32_t)vrng_range(&g, 1, 32),
                      (int)vrng_below(&g, SampleTypeCount), 0);
         if (!nframes) ++C.empty_cycles;
+        if (cy == nb_cycle && nb_when == 0) nb_close();
+        if (cy == nb_cycle && nb_when == 1 && specs.size() > 1) {
+            std::vector<FrameSpec> a(specs.begin(), specs.begin() + specs.size() / 2), b(specs.begin() + specs.size() / 2, specs.end());
+            if (!append_in_packets(st, &g, buf, a)) { violation("C14", "append-failed", "storage_append failed without an injected fault"); break; }
+            nb_close();
+            if (!append_in_packets(st, &g, buf, b)) { violation("C14", "append-failed", "storage_append failed without an injected fault (after a neighbouring device was closed)"); break; }
+        } else
         if (!append_in_packets(st, &g, buf, specs)) { violation("C14", "append-failed", "storage_append failed without an injected fault"); break; }
         vbuf_printf(&g_log, "stop ");
         if (storage_stop(st) != Device_Ok) { violation("C14", "stop-failed", "storage_stop failed"); break; }
@@ -278,8 +321,10 @@ static void run_raw_case(uint64_t seed, unsigned long icase, const std::string& 
             violation("C14", "raw-content-mismatch", "cycle %d: first differing byte at offset %zu of %zu", cy, k, buf.size());
         }
         unlink(real.c_str());
-        sig = vhash_add(sig, (uint64_t)nframes * 7 + (uint64_t)uri[0]);
+        sig = vhash_add(sig, (uint64_t)nframes * 7 + (uint64_t)uri[0] + (cy == nb_cycle ? 1000u + (unsigned)nb_when : 0u));
     }
+    nb_close();
+    if (nb_lock_fd >= 0) __real_close(nb_lock_fd);
     storage_close(st);
     if (!IO.owned->empty() && !g_case_violated) { violation("C16", "descriptor-left-open", "%zu descriptor(s) still open after device close", IO.owned->size()); }
     for (int fd : *IO.owned) __real_close(fd);
@@ -369,6 +414,92 @@ static void run_tiff_case(uint64_t seed, unsigned long icase, const std::string&
     ++C.cases; vset_add(&g_sigs, sig);
 }
 
+// ---- C15: files beyond 4 GiB ---------------------------------------------------------------------------
+// Frames of 0.6-1.4 GiB whose pixels are zero except for the first and last 4 KiB; the interposed pwrite
+// stores only those two blocks, so the file on disk is sparse but byte-identical to a full write.
+static void run_tiffbig_case(uint64_t seed, unsigned long icase, const std::string& dir)
+{
+    vrng g; vrng_seed(&g, seed, 0x1b, icase);
+    snprintf(g_casedesc, sizeof g_casedesc, "tiffbig %llu %lu 1", (unsigned long long)seed, icase);
+    vbuf_reset(&g_log); g_case_violated = 0;
+    IO.short_writes = 0; IO.site_kind = 0; IO.mode = F_NONE; IO.sparse = 1;
+    int json_kind = (int)(icase & 1);
+    struct Storage* st = open_device(json_kind ? BasicDevice_Storage_SideBySideTiffJson : BasicDevice_Storage_Tiff);
+    if (!st) { violation("C15", "open-failed", "storage_open failed"); return; }
+    char name[64]; snprintf(name, sizeof name, "big%lu%s", icase, json_kind ? ".dir" : ".tif");
+    std::string real, uri = uri_spelling(&g, dir, name, &real);
+    const char* meta = k_meta[vrng_range(&g, 2, 4)];
+    struct PixelScale ps = { 1, 1 };
+    struct StorageProperties props; memset(&props, 0, sizeof props);
+    storage_properties_init(&props, 0, uri.c_str(), uri.size() + 1, meta, strlen(meta) + 1, ps, 0);
+    vbuf_printf(&g_log, "| %s set(%s) start ", json_kind ? "tiff-json" : "tiff", uri.c_str());
+    enum DeviceStatusCode rc = storage_set(st, &props);
+    storage_properties_destroy(&props);
+    if (rc != Device_Ok) { violation("C15", "set-failed", "storage_set failed for %s", uri.c_str()); storage_close(st); return; }
+    if (storage_start(st) != Device_Ok) { violation("C15", "start-failed", "storage_start failed"); storage_close(st); return; }
+    int type = vrng_chance(&g, 1, 2) ? SampleType_u8 : SampleType_u16;
+    uint32_t w = (uint32_t)vrng_range(&g, 16384, 46000);
+    uint64_t target = (uint64_t)vrng_range(&g, 600, 1400) << 20;
+    uint32_t h = (uint32_t)(target / ((uint64_t)w * k_bpp[type]));
+    size_t img = (size_t)w * h * k_bpp[type];
+    size_t nbytes = align8(sizeof(struct VideoFrame) + img);
+    int nframes = (int)(((4400ull << 20) + nbytes - 1) / nbytes) + (int)vrng_range(&g, 0, 2);
+    uint8_t* fb = (uint8_t*)mmap(0, nbytes, PROT_READ | PROT_WRITE, MAP_PRIVATE | MAP_ANONYMOUS | MAP_NORESERVE, -1, 0);
+    if (fb == MAP_FAILED) { printf("X {\"case\":\"%s\",\"what\":\"mmap of %zu bytes failed\"}\n", g_casedesc, nbytes); storage_close(st); return; }
+    char en[128]; snprintf(en, sizeof en, "%s/expect_big%lu.json", dir.c_str(), icase);
+    char pn[128]; snprintf(pn, sizeof pn, "%s/pixels_big%lu.bin", dir.c_str(), icase);
+    int pfd = __real_open(pn, O_RDWR | O_CREAT | O_TRUNC, 0666);
+    std::vector<FrameSpec> specs;
+    bool ok = true;
+    for (int i = 0; i < nframes && ok; ++i) {
+        FrameSpec s{};
+        s.w = w; s.h = h; s.type = type; s.img = img; s.nbytes = nbytes;
+        s.frame_id = (uint64_t)i; s.hw_id = 500 + 2 * (uint64_t)i; s.ts_hw = vrng_u64(&g) >> 8; s.ts_acq = vrng_u64(&g) >> 8;
+        struct VideoFrame* f = (struct VideoFrame*)fb;
+        memset(f, 0, sizeof *f);
+        f->bytes_of_frame = nbytes;
+        f->shape.dims.channels = 1; f->shape.dims.width = w; f->shape.dims.height = h; f->shape.dims.planes = 1;
+        f->shape.strides.channels = 1; f->shape.strides.width = 1; f->shape.strides.height = w; f->shape.strides.planes = (int64_t)w * h;
+        f->shape.type = (enum SampleType)type;
+        f->frame_id = s.frame_id; f->hardware_frame_id = s.hw_id; f->timestamps.hardware = s.ts_hw; f->timestamps.acq_thread = s.ts_acq;
+        for (size_t k = 0; k < 4096; ++k) { f->data[k] = (uint8_t)vrng_u64(&g); f->data[img - 4096 + k] = (uint8_t)vrng_u64(&g); }
+        if (__real_pwrite(pfd, f->data, 4096, (off_t)((uint64_t)i * img)) != 4096 ||
+            __real_pwrite(pfd, f->data + img - 4096, 4096, (off_t)((uint64_t)i * img + img - 4096)) != 4096) { ok = false; break; }
+        vbuf_printf(&g_log, "append(1 frame,%zu B) ", nbytes);
+        ++C.appends;
+        if (storage_append(st, f, (const struct VideoFrame*)(fb + nbytes)) != Device_Ok) { violation("C15", "append-failed", "storage_append of frame %d (%zu bytes) failed without an injected fault", i, nbytes); ok = false; }
+        specs.push_back(s);
+    }
+    munmap(fb, nbytes);
+    __real_close(pfd);
+    vbuf_printf(&g_log, "stop ");
+    if (ok && storage_stop(st) != Device_Ok) { violation("C15", "stop-failed", "storage_stop failed"); ok = false; }
+    if (ok) {
+        FILE* ef = fopen(en, "w");
+        fprintf(ef, "{\"case\":\"%s\",\"cycle\":0,\"big\":true,\"kind\":\"%s\",\"tif\":", g_casedesc, json_kind ? "tiff-json" : "tiff");
+        json_escape(ef, json_kind ? real + "/data.tif" : real);
+        fprintf(ef, ",\"metadata_json_path\":"); json_escape(ef, json_kind ? real + "/metadata.json" : "");
+        fprintf(ef, ",\"metadata\":"); json_escape(ef, meta);
+        fprintf(ef, ",\"pixels\":"); json_escape(ef, pn);
+        fprintf(ef, ",\"oplog\":"); json_escape(ef, g_log.p);
+        fprintf(ef, ",\"frames\":[");
+        for (size_t i = 0; i < specs.size(); ++i) {
+            const FrameSpec& s = specs[i];
+            fprintf(ef, "%s{\"w\":%u,\"h\":%u,\"bits\":%zu,\"fmt\":1,\"frame_id\":%llu,\"hw\":%llu,\"ts_hw\":%llu,\"ts_acq\":%llu,\"img\":%zu}", i ? "," : "",
+                    s.w, s.h, 8 * k_bpp[s.type], (unsigned long long)s.frame_id, (unsigned long long)s.hw_id, (unsigned long long)s.ts_hw, (unsigned long long)s.ts_acq, s.img);
+        }
+        fprintf(ef, "]}\n");
+        fclose(ef);
+        ++C.files; ++C.big_files; C.frames += (unsigned long)nframes; C.bytes += (unsigned long)nframes * nbytes; ++C.cycles;
+    } else unlink(pn);
+    storage_close(st);
+    if (!IO.owned->empty() && !g_case_violated) violation("C16,C15", "descriptor-left-open", "%zu descriptor(s) still open after device close", IO.owned->size());
+    for (int fd : *IO.owned) __real_close(fd);
+    IO.owned->clear();
+    IO.sparse = 0;
+    ++C.cases; vset_add(&g_sigs, vhash_add(vhash_init(), 0xb16ull * 64 + (uint64_t)nframes * 4 + (uint64_t)json_kind * 2 + (uint64_t)(type == SampleType_u16)));
+}
+
 // ---- C16: fault enumeration ------------------------------------------------------------------------------
 static int kind_of(const char* s)
 {
@@ -439,7 +570,7 @@ int main(int argc, char** argv)
     g_loud = getenv("VERIF_LOUD") != 0;
     g_driver = acquire_driver_init_v0(reporter);
     const char* mode = argv[1];
-    if (!strcmp(mode, "raw") || !strcmp(mode, "tiff")) {
+    if (!strcmp(mode, "raw") || !strcmp(mode, "tiff") || !strcmp(mode, "tiffbig")) {
         uint64_t seed = strtoull(argv[2], 0, 10);
         unsigned long first = strtoul(argv[3], 0, 10), count = strtoul(argv[4], 0, 10);
         std::string dir = argv[5];
@@ -447,12 +578,12 @@ int main(int argc, char** argv)
         if (chdir(dir.c_str()) != 0) return 2;
         g_props = mode[0] == 'r' ? "C14" : "C15";
         for (unsigned long c = first; c < first + count; ++c) {
-            if (mode[0] == 'r') run_raw_case(seed, c, dir); else run_tiff_case(seed, c, dir);
+            if (mode[0] == 'r') run_raw_case(seed, c, dir); else if (mode[4]) run_tiffbig_case(seed, c, dir); else run_tiff_case(seed, c, dir);
             if (g_nviol > 20) break;
         }
         printf("S {\"mode\":\"%s\",\"cases\":%lu,\"violations\":%lu,\"cycles\":%lu,\"appends\":%lu,\"frames\":%lu,\"bytes\":%lu,\"files\":%lu,"
-               "\"empty_cycles\":%lu,\"restarts_without_set\":%lu,\"file_uri_spellings\":%lu,\"opens\":%lu,\"pwrites\":%lu,\"short_writes\":%lu,\"closes\":%lu,\"distinct\":%zu}\n",
-               mode, C.cases, g_nviol, C.cycles, C.appends, C.frames, C.bytes, C.files, C.empty_cycles, C.restarts_without_set, C.fileuri, IO.n_open, IO.n_pwrite, IO.shorts,
+               "\"empty_cycles\":%lu,\"restarts_without_set\":%lu,\"locked_neighbours\":%lu,\"files_over_4gib\":%lu,\"file_uri_spellings\":%lu,\"opens\":%lu,\"pwrites\":%lu,\"short_writes\":%lu,\"closes\":%lu,\"distinct\":%zu}\n",
+               mode, C.cases, g_nviol, C.cycles, C.appends, C.frames, C.bytes, C.files, C.empty_cycles, C.restarts_without_set, C.neighbours, C.big_files, C.fileuri, IO.n_open, IO.n_pwrite, IO.shorts,
                IO.n_close, g_sigs.n);
         const char* hp = getenv("VERIF_HASH_OUT");
         if (hp) vset_dump(&g_sigs, hp);
@@ -460,7 +591,7 @@ int main(int argc, char** argv)
         if (argc < 8) return 2;
         g_props = "C16";
         const char* kind = argv[2]; int tmpl = atoi(argv[3]);
-        IO.site_kind = !strcmp(argv[4], "open") ? 1 : !strcmp(argv[4], "pwrite") ? 2 : 0;
+        IO.site_kind = !strcmp(argv[4], "open") ? 1 : !strcmp(argv[4], "pwrite") ? 2 : !strcmp(argv[4], "flock") ? 3 : 0;
         IO.site = atol(argv[5]);
         const char* m = argv[6];
         IO.mode = !strcmp(m, "eacces") ? F_EACCES : !strcmp(m, "enospc") ? F_ENOSPC : !strcmp(m, "eio") ? F_EIO :
@@ -472,8 +603,8 @@ int main(int argc, char** argv)
         alarm(60);
         // W record first: if the process dies, the parent still has the op log up to the crash via 'P' lines
         run_fault_case(kind, tmpl, argv[7]);
-        printf("S {\"mode\":\"fault\",\"case\":\"%s\",\"violations\":%lu,\"opens\":%lu,\"pwrites\":%lu,\"closes\":%lu,\"faults_fired\":%lu,\"oplog\":",
-               g_casedesc, g_nviol, IO.n_open, IO.n_pwrite, IO.n_close, IO.faults_fired);
+        printf("S {\"mode\":\"fault\",\"case\":\"%s\",\"violations\":%lu,\"opens\":%lu,\"pwrites\":%lu,\"closes\":%lu,\"flocks\":%lu,\"faults_fired\":%lu,\"oplog\":",
+               g_casedesc, g_nviol, IO.n_open, IO.n_pwrite, IO.n_close, IO.n_flock, IO.faults_fired);
         vjson_str(stdout, g_log.p ? g_log.p : ""); printf("}\n");
     } else return 2;
     fflush(stdout);
